@@ -33,7 +33,7 @@ func zzSuiteList(name string) []uint16 {
 	n := vChoice(name+".n", 3)
 	out := make([]uint16, 0, n)
 	for i := 0; i < n; i++ {
-		out = append(out, ids[vChoice(name+"."+string(rune('0'+i)), len(ids))])
+		out = append(out, ids[vInt(name+"."+string(rune('0'+i)), 0, len(ids)-1)])
 	}
 	return out
 }
@@ -45,20 +45,20 @@ func zzSuiteList(name string) []uint16 {
 //
 //verif:property C16
 //verif:expect-reach end resumed refused
-//verif:bound ticket verdict symbolic; session version in {GMSSL, TLS1.2}, session suite over 4 ids, client-offered and configured suite lists of length 0..2 over {two GM ids, a TLS id, an unknown id}, stored client certificates present/absent, each ClientAuth policy, tickets enabled/disabled
+//verif:bound all of these symbolic: ticket verdict, session version in {GMSSL, TLS1.2}, session suite over 4 ids, the elements of the client-offered and configured suite lists (over {two GM ids, a TLS id, an unknown id}), the ClientAuth policy, tickets enabled/disabled; list lengths 0..2 and stored client certificates present/absent are case splits
 //verif:outside ticket authenticity itself (zzH_c16_ticket_decrypt); multi-connection histories
 //verif:stub (*github.com/tjfoc/gmsm/gmtls.Conn).decryptTicket zzResDecryptTicket
 func zzH_c16_gate_gm() {
-	cfg := &Config{SessionTicketsDisabled: vChoice("disabled", 2) == 1, ClientAuth: ClientAuthType(vChoice("clientAuth", 5))}
+	cfg := &Config{SessionTicketsDisabled: vBool("disabled"), ClientAuth: ClientAuthType(vInt("clientAuth", 0, 4))}
 	cfg.CipherSuites = zzSuiteList("cfg")
 	c := &Conn{config: cfg, vers: VersionGMSSL}
-	st := &sessionState{vers: []uint16{VersionGMSSL, VersionTLS12}[vChoice("svers", 2)],
-		cipherSuite: []uint16{GMTLS_SM2_WITH_SM4_SM3, GMTLS_ECDHE_SM2_WITH_SM4_SM3, TLS_RSA_WITH_AES_128_CBC_SHA, 0x1234}[vChoice("ssuite", 4)],
+	st := &sessionState{vers: []uint16{VersionGMSSL, VersionTLS12}[vInt("svers", 0, 1)],
+		cipherSuite: []uint16{GMTLS_SM2_WITH_SM4_SM3, GMTLS_ECDHE_SM2_WITH_SM4_SM3, TLS_RSA_WITH_AES_128_CBC_SHA, 0x1234}[vInt("ssuite", 0, 3)],
 		masterSecret: make([]byte, 48)}
 	if vChoice("scerts", 2) == 1 {
 		st.certificates = [][]byte{{1}}
 	}
-	zzRes.ticketOK, zzRes.state = vChoice("ticketOK", 2) == 1, st
+	zzRes.ticketOK, zzRes.state = vBool("ticketOK"), st
 	ch := &clientHelloMsg{vers: VersionGMSSL, sessionTicket: []byte{1, 2, 3}, cipherSuites: zzSuiteList("offer")}
 	hs := &serverHandshakeStateGM{c: c, clientHello: ch}
 	got := hs.checkForResumption()
@@ -126,6 +126,75 @@ func zzH_c16_resume_flow_gm() {
 		}
 	} else {
 		vAssert("resume-fails-only-on-invalid-stored-certificates", len(st.certificates) > 0 && !zzRes.certsOK)
+	}
+	vReach("end")
+}
+
+func zzSuiteListTLS(name string) []uint16 {
+	ids := []uint16{TLS_RSA_WITH_AES_128_CBC_SHA, TLS_ECDHE_RSA_WITH_AES_128_GCM_SHA256, TLS_ECDHE_ECDSA_WITH_AES_128_GCM_SHA256, 0x1234}
+	n := vChoice(name+".n", 3)
+	out := make([]uint16, 0, n)
+	for i := 0; i < n; i++ {
+		out = append(out, ids[vInt(name+"."+string(rune('0'+i)), 0, len(ids)-1)])
+	}
+	return out
+}
+
+// H16-gate-tls: the TLS-mode twin of zzH_c16_gate_gm (serverHandshakeState.checkForResumption):
+// resumes exactly when tickets are enabled, the ticket decrypts, the session's version is the
+// negotiated one, its suite is still offered, configured and usable with this server's keys at
+// that version, and the stored client-certificate state fits the current policy.
+//
+//verif:property C16
+//verif:expect-reach end resumed refused
+//verif:bound all of these symbolic: ticket verdict; negotiated and session version in {TLS1.0, TLS1.1, TLS1.2}; session suite over {RSA-AES-CBC, ECDHE-RSA-AES-GCM, ECDHE-ECDSA-AES-GCM, unknown}; the elements of the offered and configured lists over those; the server's key capabilities (elliptic, ecdsa, rsa sign, rsa decrypt); the ClientAuth policy; tickets enabled/disabled. List lengths 0..2 and stored client certificates present/absent are case splits
+//verif:outside ticket authenticity itself (zzH_c16_ticket_decrypt); multi-connection histories
+//verif:stub (*github.com/tjfoc/gmsm/gmtls.Conn).decryptTicket zzResDecryptTicket
+func zzH_c16_gate_tls() {
+	cfg := &Config{SessionTicketsDisabled: vBool("disabled"), ClientAuth: ClientAuthType(vInt("clientAuth", 0, 4))}
+	cfg.CipherSuites = zzSuiteListTLS("cfg")
+	versions := []uint16{VersionTLS10, VersionTLS11, VersionTLS12}
+	c := &Conn{config: cfg, vers: versions[vInt("cvers", 0, 2)]}
+	ids := []uint16{TLS_RSA_WITH_AES_128_CBC_SHA, TLS_ECDHE_RSA_WITH_AES_128_GCM_SHA256, TLS_ECDHE_ECDSA_WITH_AES_128_GCM_SHA256, 0x1234}
+	st := &sessionState{vers: versions[vInt("svers", 0, 2)], cipherSuite: ids[vInt("ssuite", 0, 3)], masterSecret: make([]byte, 48)}
+	if vChoice("scerts", 2) == 1 {
+		st.certificates = [][]byte{{1}}
+	}
+	zzRes.ticketOK, zzRes.state = vBool("ticketOK"), st
+	ch := &clientHelloMsg{vers: c.vers, sessionTicket: []byte{1, 2, 3}, cipherSuites: zzSuiteListTLS("offer")}
+	hs := &serverHandshakeState{c: c, clientHello: ch,
+		ellipticOk: vBool("ellipticOk"), ecdsaOk: vBool("ecdsaOk"),
+		rsaSignOk: vBool("rsaSignOk"), rsaDecryptOk: vBool("rsaDecryptOk")}
+	got := hs.checkForResumption()
+	in := func(id uint16, l []uint16) bool {
+		for _, x := range l {
+			if x == id {
+				return true
+			}
+		}
+		return false
+	}
+	usable := false
+	switch st.cipherSuite {
+	case TLS_RSA_WITH_AES_128_CBC_SHA:
+		usable = hs.rsaDecryptOk
+	case TLS_ECDHE_RSA_WITH_AES_128_GCM_SHA256:
+		usable = hs.ellipticOk && hs.rsaSignOk && st.vers >= VersionTLS12
+	case TLS_ECDHE_ECDSA_WITH_AES_128_GCM_SHA256:
+		usable = hs.ellipticOk && hs.ecdsaOk && st.vers >= VersionTLS12
+	}
+	has := len(st.certificates) != 0
+	need := cfg.ClientAuth == RequireAnyClientCert || cfg.ClientAuth == RequireAndVerifyClientCert
+	want := !cfg.SessionTicketsDisabled && zzRes.ticketOK && st.vers == c.vers &&
+		in(st.cipherSuite, ch.cipherSuites) && in(st.cipherSuite, cfg.CipherSuites) && usable &&
+		!(need && !has) && !(has && cfg.ClientAuth == NoClientCert)
+	if got {
+		vReach("resumed")
+		vAssert("resumes-only-under-all-conditions", want)
+		vAssert("resumed-state-is-the-ticket-state", hs.sessionState == st && hs.suite != nil && hs.suite.id == st.cipherSuite)
+	} else {
+		vReach("refused")
+		vAssert("valid-ticket-with-listed-suite-is-resumed", !want)
 	}
 	vReach("end")
 }
